@@ -19,6 +19,8 @@ NOT_DECIDED = [
     "anything quantified over interpretations as such",
 ]
 
+# functions of the math module that are exact on int / Fraction operands
+EXACT_MATH = {"gcd", "lcm", "isqrt", "factorial", "comb", "perm", "floor", "ceil", "trunc"}
 SYMBOL_CTORS = {"Symbol", "FreshSymbol", "new_fresh_symbol", "get_or_create_symbol", "_create_symbol"}
 
 
@@ -66,7 +68,8 @@ def run(ctx):
                     fn = n.func
                     if isinstance(fn, ast.Name) and fn.id == "float":
                         kinds.setdefault("float()", n)
-                    elif isinstance(fn, ast.Attribute) and isinstance(fn.value, ast.Name) and fn.value.id == "math":
+                    elif isinstance(fn, ast.Attribute) and isinstance(fn.value, ast.Name) and fn.value.id == "math" \
+                            and fn.attr not in EXACT_MATH:
                         kinds.setdefault("math.%s" % fn.attr, n)
                 elif isinstance(n, ast.Constant) and isinstance(n.value, float):
                     kinds.setdefault("float-literal", n)
